@@ -88,8 +88,15 @@ class Region(abc.ABC):
         # if they directly convertible (e.g., 1. * u.deg == 60. * u.arcmin)
         try:
             for param in self_params:
+                self_val = getattr(self, param)
+                other_val = getattr(other, param)
+                # array-valued parameters (e.g., polygon vertices) with
+                # different shapes are never equal (do not broadcast)
+                if (getattr(self_val, 'shape', None)
+                        != getattr(other_val, 'shape', None)):
+                    return False
                 # np.any is used for SkyCoord array comparisons
-                if np.any(getattr(self, param) != getattr(other, param)):
+                if np.any(self_val != other_val):
                     return False
         except TypeError:
             # TypeError is raised from SkyCoord comparison when they do
